@@ -30,12 +30,12 @@ ASSUMPTIONS = [
     'generated inputs have fewer than 16 significant digits',
     'model_lex takes arbitrary chunk lists; the .p8 / .p8.png readers only produce chunks ending after a line feed',
 ]
-PARTIAL = ('C07_chunking (tokenisation independent of splitting at line ends) is not proved in Coq: it is validated by '
-           'the correspondence (every source lexed as one chunk, as per-line chunks and at random split points by both '
-           'implementation and model) and by the monitor holds_C07_chunking on the implementation. C07_lex_agrees is '
-           'proved for the single-chunk path; C07_cover / C07_positions hold for any chunking. Sources the reference '
-           'grammar leaves undefined (see Spec/LuaLex.v header: lone CR, --[==[ comments, \\z and unknown escapes, 1e+5, '
-           'malformed numerals, later compound operators) are outside every claim.')
+PARTIAL = ('Nothing of the statement is left unproved for the model: C07_lex_agrees (single chunk), C07_chunking and '
+           'C07_lex_agrees_chunks (per-line chunks) hold for every byte string. Limits: sources the reference grammar '
+           'leaves undefined (Spec/LuaLex.v header: a CR not followed by LF, --[==[ comments, \\z and unknown escapes, 1e+5, '
+           'malformed numerals, later compound operators, raw line breaks in quoted strings) are outside every claim; '
+           'get_token_count is compared between model and implementation only (the counting rule is not part of the '
+           'lexical grammar).')
 CLAIM = dict(
     text=("Theorems (Coq, closed under the global context) about an executable model of Lexer._process_token/"
           "_process_line/process_lines, Token.code, TokString.value, TokNumber.value whose ordered matcher table, symbol "
@@ -43,13 +43,15 @@ CLAIM = dict(
           "byte string given as one chunk, if the reference grammar Spec/LuaLex.v (Lua 5.2 section 3.1 + PICO-8 extensions) "
           "is defined on it, the model lexes it and its token list passes holds_C07, the same predicate the extracted "
           "monitor applies to the implementation (same boundaries, class, decoded string bytes, exact numeric value, "
-          "quote / bracket level, line, column); C07_step_agrees (one token, every first-byte class); "
+          "quote / bracket level, line, column); C07_chunking + C07_lex_agrees_chunks (the same for per-line chunks); C07_step_agrees (one token, every first-byte class); "
           "C07_symbols_longest (first match in regenerated table order = longest match) and C07_symbols_same_set; "
           "C07_number_value (exact, all numeral forms incl. 0XA / 0x.8); C07_cover and C07_positions for any chunking, "
           "C07_positions_lua. Tie: extracted model vs implementation field by field (token lists, code, value, string "
           "value, token count; each matcher scanner vs re.match of the running pattern) and the extracted monitor on the "
           "implementation's tokens, ~110k evaluations per quick run. Six lexer defects found by this check were fixed "
-          "(findings/known_C07.json). Partial: C07_chunking is validated by correspondence + monitor only."),
+          "(findings/known_C07.json). C07_chunking (same tokens / same error whether the text arrives as one chunk or split "
+          "after line feeds) is proved for every input: no matcher of the regenerated table consumes or looks past a line "
+          "feed, the multi-line scanners are compositional at one."),
     note=("Trusted: Coq kernel+VM, table dump gen/kernels_lexer.py (import-based; symbol patterns checked to be pure "
           "literals with re._parser; other patterns pinned by source text), hand-written scanners for the pinned regex "
           "sources (each compared with re.match on the running pattern), ExtrOcamlBasic extraction, OCaml glue, the "
@@ -285,6 +287,8 @@ def _mon_reqs(row):
             reqs.append('err ' + hs)
         else:
             reqs.append('hold %s %s' % (hs, LC.enc_itoks(r['toks'])))
+    if 'err' not in row['one']:
+        reqs.append('count ' + hs)
     a, b = row['one'], row['lines']
     if 'err' in a or 'err' in b:
         reqs.append('true' if ('err' in a and 'err' in b and a['err'] == b['err']) else 'false')
@@ -410,7 +414,13 @@ def _eval_many_rows(mon, rows):
     out = []
     for r, (a, b) in zip(rows, spans):
         sig = None
-        for lab, x in zip(['one', 'lines', 'chunking'], ans[a:b]):
+        labs = ['one', 'lines'] + (['count'] if 'err' not in r['one'] else []) + ['chunking']
+        for lab, x in zip(labs, ans[a:b]):
+            if lab == 'count':
+                if x != 'NONE' and x != str(r['one']['count']):
+                    sig = 'C07/token-count'
+                    break
+                continue
             if x != 'true':
                 sig = 'C07/chunking' if lab == 'chunking' else _classify(r['src'], x, r[lab])
                 break
